@@ -323,6 +323,10 @@ class MultiPaxosNode(Entity):
         self._leader = ballot.node_id
 
         # Append to log (truncate conflicting entries)
+        if slot > self._log.last_index + 1:
+            # An earlier slot has not arrived yet: appending would file this
+            # command under the wrong slot. Wait until the gap is filled.
+            return []
         if slot > self._log.last_index:
             self._log.append(ballot.number, command)
         elif self._log.get(slot) and self._log.get(slot).term != ballot.number:
